@@ -133,7 +133,7 @@ void assert_equal_(const char *file, int line, const char *expression, intptr_t 
             file,
             line,
             (tried == expected),
-            "[%s] should be [%d] but was [%d]\n", expression, expected, tried);
+            "[%s] should be [%" PRIdPTR "] but was [%" PRIdPTR "]\n", expression, expected, tried);
 }
 
 void assert_not_equal_(const char *file, int line, const char *expression, intptr_t tried, intptr_t expected) {
@@ -142,7 +142,7 @@ void assert_not_equal_(const char *file, int line, const char *expression, intpt
             file,
             line,
             (tried != expected),
-            "[%s] should not be [%d] but was\n", expression, expected, tried);
+            "[%s] should not be [%" PRIdPTR "] but was\n", expression, expected, tried);
 }
 
 void assert_double_equal_(const char *file, int line, const char *expression, double tried, double expected) {
